@@ -3,7 +3,7 @@ CONSTANTS N = 3
           AdfSetKind = "sample"
           TwoValMode = FALSE
           Contract = TRUE
-          FixedFoldC = FALSE
+          FixedFoldC = TRUE
 INVARIANTS Exact Safe LockStep StoreSound
 VIEW View
 CHECK_DEADLOCK FALSE
